@@ -68,13 +68,58 @@ SwuOK(r) ==
      /\ ESqr(r.yo) = Gx(g, x)
      /\ Sgn0E(r.yo) = Sgn0E(u)
 
-\* projective point (X : Y : Z) on E: y^2 = x^3 + 4 (G1) / E': y^2 = x^3 + 4 (1 + i) (G2), not the identity
+(***************************************************************************)
+(* Homogeneous projective arithmetic on the ISOGENOUS curve                *)
+(* E'_g: y^2 = x^3 + SA(g) x + SB(g)  over BigNat (no division), used to   *)
+(* decide whether a point is killed by the isogeny degree.                 *)
+(***************************************************************************)
+ETimes(k, x) == LET x2 == EAdd(x, x) x4 == EAdd(x2, x2) IN
+                IF k = 1 THEN x ELSE IF k = 2 THEN x2 ELSE IF k = 3 THEN EAdd(x2, x) ELSE IF k = 4 THEN x4
+                ELSE EAdd(x4, x4)      \* k = 8
+PDbl(g, Pt) ==
+  LET X == Pt[1] Y == Pt[2] Z == Pt[3] d == g IN
+  IF Z = EZero(d) \/ Y = EZero(d) THEN <<EZero(d), EOne(d), EZero(d)>>
+  ELSE LET W  == EAdd(EMul(SA(g), ESqr(Z)), ETimes(3, ESqr(X)))
+           S  == EMul(Y, Z)
+           Bq == EMul(EMul(X, Y), S)
+           H  == ESub(ESqr(W), ETimes(8, Bq))
+           S2 == ESqr(S)
+       IN <<ETimes(2, EMul(H, S)),
+            ESub(EMul(W, ESub(ETimes(4, Bq), H)), ETimes(8, EMul(ESqr(Y), S2))),
+            ETimes(8, EMul(S2, S))>>
+PAddP(g, Pt, Qt) ==
+  LET d == g IN
+  IF Pt[3] = EZero(d) THEN Qt
+  ELSE IF Qt[3] = EZero(d) THEN Pt
+  ELSE LET U1 == EMul(Qt[2], Pt[3]) U2 == EMul(Pt[2], Qt[3])
+           V1 == EMul(Qt[1], Pt[3]) V2 == EMul(Pt[1], Qt[3])
+       IN IF V1 = V2 THEN (IF U1 = U2 THEN PDbl(g, Pt) ELSE <<EZero(d), EOne(d), EZero(d)>>)
+          ELSE LET U  == ESub(U1, U2) V == ESub(V1, V2) W == EMul(Pt[3], Qt[3])
+                   V2s == ESqr(V) V3 == EMul(V2s, V)
+                   Aq == ESub(ESub(EMul(ESqr(U), W), V3), ETimes(2, EMul(V2s, V2)))
+               IN <<EMul(V, Aq), ESub(EMul(U, ESub(EMul(V2s, V2), Aq)), EMul(V3, U2)), EMul(V3, W)>>
+\* the degree of the isogeny: 11 on E'(Fp), 3 on E'(Fp2)
+KilledByDegree(g, x, y) ==
+  LET P1 == <<x, y, EOne(g)>>
+      P2 == PDbl(g, P1)
+  IN IF g = 2 THEN PAddP(g, P2, P1)[3] = EZero(g)
+     ELSE LET P4 == PDbl(g, P2) P8 == PDbl(g, P4) P10 == PAddP(g, P8, P2)
+          IN PAddP(g, P10, P1)[3] = EZero(g)
+
+\* the output (X : Y : Z) of iso_map / map_to_curve for the SWU image (xo, yo) of u.
+\* Z # 0: a point of E: y^2 = x^3 + 4 (G1) / E': y^2 = x^3 + 4 (1 + i) (G2).
+\* Z = 0 (the identity) is right only for a point of the isogeny's kernel; every kernel point is killed by the
+\* degree, and that necessary condition is evaluated here on the isogenous curve (the row then repeats the SWU
+\* fields, so that (xo, yo) is the verified SWU image of u).
 IsoOK(r) ==
   LET d == r.g
       b == IF d = 1 THEN <<N(4)>> ELSE <<N(4), N(4)>>
       z2 == ESqr(r.Z)
-  IN /\ IsE(d, r.X) /\ IsE(d, r.Y) /\ IsE(d, r.Z) /\ r.Z # EZero(d)
-     /\ EMul(ESqr(r.Y), r.Z) = EAdd(EMul(ESqr(r.X), r.X), EMul(b, EMul(z2, r.Z)))
+  IN /\ IsE(d, r.X) /\ IsE(d, r.Y) /\ IsE(d, r.Z)
+     /\ IF r.Z = EZero(d)
+        THEN /\ SwuOK(r.swu) /\ r.swu.g = r.g /\ r.swu.u = r.u
+             /\ KilledByDegree(d, r.swu.xo, r.swu.yo)
+        ELSE EMul(ESqr(r.Y), r.Z) = EAdd(EMul(ESqr(r.X), r.X), EMul(b, EMul(z2, r.Z)))
 
 \* the isogeny is a group homomorphism: iso(P + Q) and iso(P) + iso(Q) (both evaluated by the library on two
 \* distinct SWU images P, Q with its generic chord addition, which does not involve the curve coefficient)
